@@ -247,6 +247,13 @@ func Destroy() {
 	for _, a := range global.appenders {
 		a.Stop()
 	}
+	// Tags and handles must not keep forwarding to the stopped loggers.
+	for _, t := range tagRegistry {
+		t.logger = nil
+	}
+	for _, l := range loggerMap {
+		l.logger = nil
+	}
 	global.loggers = nil
 	global.appenders = nil
 	global.init = false
